@@ -205,6 +205,67 @@ def is_mapped(body, expr_full, expr_var, of, ov, depth=0):
     return False
 
 
+def _literal_array(e):
+    """e is an iterator that yields every element of an array of string literals exactly once (the array itself, by value or by reference — into_iter is
+    transparent for origins —, `.iter()` on it, `.copied()` / `.cloned()` on that): the rendered literals, else None."""
+    while e[0] == 'call' and len(e[2]) == 1 and re.search(r'^(slice::iter|Iterator::copied|Iterator::cloned)$', flow.short(e[1])):
+        e = e[2][0]
+    if e[0] == 'agg' and e[1] == 'array' and e[2] and all(o[0] == 'const' and o[2] is None and re.match(r'^"[^"]*"$', o[1]) for o in e[2]):
+        return [o[1] for o in e[2]]
+    return None
+
+
+def _ref_root(body, op):
+    """the local an operand `&mut *&mut it` refers to (follows reference temporaries with a single definition)"""
+    l = op['pl']['l'] if op.get('k') in ('mv', 'cp') else None
+    for _ in range(4):
+        ds = body.defs.get(l, [])
+        if len(ds) == 1 and ds[0][2] == 'assign' and ds[0][3]['rv']['k'] == 'ref' and not [x for x in ds[0][3]['rv']['pl'].get('p', []) if x != '*']:
+            l = ds[0][3]['rv']['pl']['l']
+        else:
+            break
+    return l
+
+
+def removed_keys(prog, body, call):
+    """The keys that the call `map.remove(key)` removes, rendered (C10.R4, sanitize_public_metadata).  A literal key names itself.  Written as a loop over the
+    literals — `for key in ["a", "b", "c"] { map.remove(key); }` — the call removes every element of the array, provided it really is executed once per
+    element: the key is the item the loop head yields (`next() = Some(item)`), nothing else advances the iterator, no path from the head's Some edge comes back
+    to the head without passing the call, and none leaves the loop (break / return) before the iterator is exhausted.  `….into_iter().for_each(|key| {
+    map.remove(key); })` likewise: the key is the closure's parameter and the call lies on every path through the closure.  Anything else renders as the
+    expression it is (and is then not one of the reserved literals)."""
+    of = flow.Origin(body)
+    e = of.of_operand(call.args[1])
+    plain = [flow.render(e)]
+    if e[0] == 'field' and e[2].endswith('Option::Some.0') and e[1][0] == 'downcast' and e[1][2] == 'Some' and e[1][1][0] == 'call' and len(e[1][1]) > 3:
+        head = e[1][1][3]
+        lits = _literal_array(e[1][1][2][0]) if head.callee and re.search(r'iterator::Iterator>::next$', head.callee) and len(head.args) == 1 else None
+        if lits is None or head.body is not body:
+            return plain
+        it = _ref_root(body, head.args[0])
+        some_e = flow.outcome_edges(body, head)[0] or []
+        # the iterator is advanced by the loop head only: every reference to it is taken in the head's block, and it is handed to no call as such
+        elsewhere = [i for i, blk in enumerate(body.blocks) if i != head.bb and i in body.live_blocks() and
+                     (any(s.get('rv', {}).get('k') in ('ref', 'rawptr') and s['rv']['pl']['l'] == it for s in blk['s']) or
+                      any(a.get('k') in ('mv', 'cp') and a['pl']['l'] == it for a in (body.call_at(i).args if body.call_at(i) else [])))]
+        starts = [t_ for _, t_ in some_e]
+        if it is None or len(body.defs.get(it, [])) != 1 or elsewhere or not starts or call.bb == head.bb or call.to is None:
+            return plain
+        skips = head.bb in body.reach(starts, avoid_blocks={call.bb})
+        leaves = any(x in body.reach(starts, avoid_blocks={head.bb}) for x in body.return_blocks())
+        return lits if not skips and not leaves else plain
+    if e[0] == 'arg' and body.kind == 'Closure' and e[1] == 2:
+        par = prog.bodies.get(body.parent)
+        drv = [c for c in (par.calls if par is not None else []) if c.callee and body.id in c.gc]
+        if len(drv) != 1 or flow.short(drv[0].callee) != 'Iterator::for_each' or len(drv[0].args) != 2:
+            return plain
+        lits = _literal_array(flow.Origin(par).of_operand(drv[0].args[0]))
+        if lits is None or call.to is None or not all(body.dominates(call.bb, x) for x in body.return_blocks()):
+            return plain
+        return lits
+    return plain
+
+
 def id_range_refusal(ctx, prog, rid):
     """to_global_doc_id refuses tenant-local ids above u32::MAX (C10.R2; shared with C15.R2: such a request must be answered INVALID_ARGUMENT without effect)."""
     tg = ctx.body(rid, 'TenantIdMapper::to_global_doc_id')
@@ -562,8 +623,7 @@ def run(ctx, prog):
         # the map handed to the engine is this map
         ctx.inst('C10.R4', 'rpc ' + h, 'reserved keys removed, then set from the server side', ok, '; '.join(det) or 'removes %s; inserts %s' % (sorted(k[:18] for k in rem), sorted(k[:18] for k in ins)))
     sp = ctx.body('C10.R4', 'KyroDBServiceImpl::sanitize_public_metadata')
-    spo = flow.Origin(sp)
-    keys = sorted(flow.render(spo.of_operand(c.args[1])) for c in sp.calls if c.callee and c.callee.endswith('::remove') and len(c.args) >= 2)
+    keys = sorted(k for b_ in prog.family(sp) for c in b_.calls if c.callee and c.callee.endswith('::remove') and len(c.args) >= 2 for k in removed_keys(prog, b_, c))
     ctx.inst('C10.R4', sp.short, 'sanitize removes exactly the three reserved keys', sorted(k.strip() for k in keys) == sorted(RESERVED), 'removed keys: %s' % keys)
 
     # ------------------------------------------------------------------ R5
@@ -688,11 +748,23 @@ def run(ctx, prog):
     ct = [(j, tg_) for j, bl in enumerate(av.blocks) if bl['t']['k'] == 'switch' for tg_, p in flow.switch_edge_predicates(av, j, avv) if re.match(r'^cmp\[\+ .*Choice::unwrap_u8\(.*ct_eq.*\) == 1\]$', p)]
     en = [(j, tg_) for j, bl in enumerate(av.blocks) if bl['t']['k'] == 'switch' for tg_, p in flow.switch_edge_predicates(av, j, avv) if re.match(r'^bool\[var:tenant_info→TenantInfo\.enabled\]$', p)]
     some = [d[0] for l in av.var_local('validated') for d in av.defs.get(l, []) if d[2] == 'assign' and 'Some' in flow.render(avv.of_rvalue(d[3]['rv'], 0, frozenset()))]
+    # The answer may also be written straight into the return place (`return Some(tenant_info.clone())` / `return None` / a trailing `None` instead of
+    # `validated = Some(..); break` … `validated`).  Every definition of the return place is then classified: a copy of the `validated` variable (whose Some
+    # assignments are the ones above), the None aggregate, or a Some aggregate — which is a Some-assignment like the others and must sit behind both guards.
+    # Anything else (the result of a call, a copy of another variable) is not a recognised way to answer and fails.
+    ret_other = []
+    for d in av.defs.get(0, []):
+        r_ = flow.render(avv.of_rvalue(d[3]['rv'], 0, frozenset({0}))) if d[2] == 'assign' else None
+        if r_ is not None and re.search(r'option::Option::Some\{', r_):
+            some.append(d[0])
+        elif r_ not in ('var:validated', 'option::Option::None{}'):
+            ret_other.append(r_ if r_ is not None else '%s at bb%d' % (d[2], d[0]))
     r1 = av.reach([0], avoid_edges=ct)
     r2 = av.reach([0], avoid_edges=en)
     ret = flow.render(avv.of_local(0))
-    ctx.inst('C10.R7', av.short, 'Some only for a constant-time match of an enabled tenant', bool(ct) and bool(en) and bool(some) and not any(x in r1 or x in r2 for x in some) and 'var:validated' in ret,
-             'ct_eq guard %s, enabled guard %s, Some-assignments %s' % (ct[:1], en[:1], some))
+    ctx.inst('C10.R7', av.short, 'Some only for a constant-time match of an enabled tenant',
+             bool(ct) and bool(en) and bool(some) and not any(x in r1 or x in r2 for x in some) and bool(av.defs.get(0)) and not ret_other,
+             'ct_eq guard %s, enabled guard %s, Some-assignments %s%s' % (ct[:1], en[:1], sorted(set(some)), ('; the function also answers with %s' % [x[:80] for x in ret_other[:2]]) if ret_other else ''))
     # ------------------------------------------------------------------ R8 tenant indexes are unique
     ctx.rule('C10.R8', 'tenant index allocation is injective: the tenant → index map is either the persisted map unchanged, or a map created empty in the same '
                        'function and filled with the positions of a sorted, de-duplicated id list; afterwards the only insertion gives a new tenant the index '
